@@ -609,6 +609,45 @@ pub fn tpl_program(r: &mut Rng) -> String {
     }
 }
 
+
+/// Programs that are *wrong* in ways that make the compiler enumerate candidates,
+/// arguments or columns in its message — error text is a claimed output, and messages
+/// assembled from hash containers were four of the findings.
+pub fn err_program(r: &mut Rng) -> String {
+    let t = r.pick(TABLES).to_string();
+    let u = r.pick(TABLES).to_string();
+    let mut cs: Vec<&str> = COLS.to_vec();
+    r.shuffle(&mut cs);
+    let (c1, c2, c3, c4) = (cs[0], cs[1], cs[2], cs[3]);
+    let n = r.range(2, 9);
+    match r.below(24) {
+        0 => format!("from {t} | select {{{c1}, {c2}, {c3}}} | derive {{{c4} = {c1}}} | filter zz_{n} > 1\n"),
+        1 => format!("from a = {t} | join b = {u} (=={c1}) | join c = {t} (=={c1}) | select {{{c1}, {c2}}}\n"),
+        2 => format!("from {t} | sort {c1} foo:{n} bar:2 baz:3\n"),
+        3 => format!("from {t} | take {n} extra:1 more:2\n"),
+        4 => format!("let f = func a:1 b:2 x -> x + a + b\nfrom {t} | derive y = (f q:1 r:2 s:3 {c1})\n"),
+        5 => format!("prql aa:1 bb:2 cc:3\nfrom {t}\n"),
+        6 => format!("prql target:sql.nosuch_{n}\nfrom {t} | select {{{c1}}}\n"),
+        7 => format!("prql version:\"{n}9.1\"\nfrom {t}\n"),
+        8 => format!("from {t} | select {{{c1}, {c2}}} | append (from {u} | select {{{c1}, {c2}, {c3}}})\n"),
+        9 => format!("from {t} | select !{{{c1}, {c2}, {c3}}} | append (from {u} | select {{x1 = 1}})\n"),
+        10 => format!("let {c1} = (from {t})\nlet {c1} = (from {u})\nfrom {c1}\n"),
+        11 => format!("from {t} | group {{{c1}, {c2}}} (aggregate {{s = sum {c3}}}) | select {{{c3}, {c4}}}\n"),
+        12 => format!("from {t} | derive {{x = {c1} + 'a', y = {c2} - true, z = -'q'}}\n"),
+        13 => format!("from {t} | filter ({c1} | in 'a'..'b') | take 'x'\n"),
+        14 => format!("from {t} | window rows:1 range:2 expanding:true rolling:3 (derive s = sum {c1})\n"),
+        15 => format!("from s\"UPDATE {t} SET {c1} = {n}\" | select {{{c1}}}\n"),
+        16 => format!("from_text format:json '[{{\"{c1}\": 1, \"{c2}\": 2}}, {{\"{c1}\": [1,2], \"zz\": 3}}]' | select {{{c3}}}\n"),
+        17 => format!("from_text format:csv \"\"\"\n{c1},{c2},{c3}\n1,2\n3,4,5,6\n\"\"\"\n| select {{{c4}}}\n"),
+        18 => format!("from {t} | loop (filter {c1} < {n} | select {{{c1} = {c1} + 1, extra_{n} = 2}})\n"),
+        19 => format!("from {t} | derive {{a = case [{c1} > 1 => 'x', {c2} => 2]}} | select {{a, {c3}.nested, {c4}.*}}\n"),
+        20 => format!("module m1 {{ let x = 1 }}\nmodule m2 {{ let x = 2 }}\nmodule m1 {{ let y = 3 }}\nfrom {t} | derive {{p = m1.x, q = m2.z, r = m3.x}}\n"),
+        21 => format!("from {t} | join {u} ({c1} == {c2} == {c3}) | select {{{t}.{c1}, {u}.{c2}, nope.{c3}}}\n"),
+        22 => format!("from {t} | select {{{c1} = {c1}, {c1} = {c2}, {c1} = {c3}}} | sort {{{c1}, +{c2}, -{c9}}}\n", c9 = c4),
+        _ => format!("from {t} | aggregate {{a = sum {c1}, b = average {c2}}} | derive {{c = a + {c3}, d = b + {c4}}} | filter e > f\n"),
+    }
+}
+
 /// A near-duplicate of a program: same length, same beginning and end, one
 /// small edit in between (what an editor re-compiling a buffer produces).
 pub fn variant_of(src: &str, r: &mut Rng) -> String {
@@ -774,10 +813,11 @@ const DIALECT_SENSITIVE: &[&str] = &[
 
 impl<'a> Gen<'a> {
     pub fn program(&self, r: &mut Rng) -> String {
-        match r.below(12) {
+        match r.below(14) {
             0..=3 => r.pick(&self.corpus.programs).clone(),
             4..=6 => gen_program(r, self.corpus),
             7..=9 => tpl_program(r),
+            10..=11 => err_program(r),
             _ => splice_program(r, self.corpus),
         }
     }
